@@ -397,3 +397,72 @@ def s_delete(ref0: List[bool], ref1: List[bool], o0: int, o1: int, opi: int) -> 
     with NoTracing():
         tick('s_delete', None)
     return ok
+
+
+# --------------------------------------------------------------------------- many snapshots (listing windows, batching)
+MANY = [1, 7, 11, 21, 22, 43]
+
+
+def many_case(ns, conc, op, pattern):
+    U = users(True)
+    rt.determinism(41)
+    owners = ['A' if (i % 3) else 'B' for i in range(ns)]
+    if pattern == 0:
+        refs = [[i % 3] for i in range(ns)]
+    elif pattern == 1:
+        refs = [[0, 1] for _ in range(ns)]
+    else:
+        refs = [[] for _ in range(ns - 1)] + [[2]]
+    objs = {'config': U.config}
+    snaps = []
+    for i, (u, rf) in enumerate(zip(owners, refs)):
+        loc, data, name = U.snapshot_obj(u, i % 9, rf + ([3] if i == 5 else []))
+        objs[loc] = data
+        snaps.append({'loc': loc, 'name': name, 'owner': u, 'refs': rf + ([3] if i == 5 else [])})
+        for j in snaps[-1]['refs']:
+            objs.setdefault(U.chunk_loc(u, j), U.chunk_obj(u, j))
+    be = rt.MemBackend(objs)
+    repo = fresh_repo(U, 'A', be, concurrent=conc)
+    target = None
+    try:
+        if op == 0:
+            _run(repo.clean())
+        else:
+            mine = [s for s in snaps if s['owner'] == 'A']
+            if not mine:
+                return True, 'nothing to delete'
+            target = mine[0] if op == 1 else mine[-1]
+            _run(repo.delete_snapshots([target['name']], confirm=False))
+    except Exception as e:
+        return False, f'{ns} snapshots, concurrency {conc}: command raised {e!r}'
+    remaining = [s for s in snaps if s is not target]
+    for s in remaining:
+        if s['loc'] not in be.objs:
+            return False, f'{ns} snapshots: snapshot #{snaps.index(s)} removed'
+        for j in s['refs']:
+            if U.chunk_loc(s['owner'], j) not in be.objs:
+                return False, f'{ns} snapshots, concurrency {conc}: chunk {j} referenced by remaining snapshot #{snaps.index(s)} was removed'
+    if be.max_inflight > conc:
+        return False, f'{be.max_inflight} calls in flight with concurrency {conc}'
+    fam_refs = {j for s in remaining for j in s['refs']}
+    for j in range(4):
+        loc = U.chunk_loc('A', j)
+        if op == 0 and loc in objs and (j in fam_refs) != (loc in be.objs):
+            return False, f'{ns} snapshots: clean left chunk {j} referenced={j in fam_refs} present={loc in be.objs}'
+        if op != 0 and target and j in target['refs'] and j not in fam_refs and loc in be.objs:
+            return False, f'{ns} snapshots: delete left chunk {j} that only the deleted snapshot referenced'
+    return True, ''
+
+
+def g_many(k: int) -> bool:
+    """Repositories with many snapshots (more than 10 x concurrency): clean / delete stay safe and complete.
+    pre: 0 <= k < 6 * 2 * 3 * 3
+    post: _
+    """
+    ni, ci, op, pat = digits(k, [6, 2, 3, 3])
+    with NoTracing():
+        ok, msg = many_case(MANY[ni], [1, 2][ci], op, pat)
+        tick('g_many', [MANY[ni], [1, 2][ci], op, pat])
+        if not ok:
+            _say(msg)
+        return ok
